@@ -5,7 +5,7 @@
 //	    front: the ResponseWriter the outermost layer receives: net/http's own (real) or a wrapper that hides
 //	           http.Hijacker, http.Flusher or both (what a recorder, http.TimeoutHandler or HTTP/2 hand to a middleware)
 //	    layer  := kind[/opt]...   kind in stream trace connlimit ratelimit cbreaker roundrobin rebalancer buffer
-//	    opts   := s        sticky session on a balancer (cookie sk<idx>)
+//	    opts   := s        sticky session on a balancer (cookie sk0…0 with 9-idx zeros)
 //	              f<code>  breaker fallback = ResponseFallback{code,"text/fb","fb-body"};  fr = RedirectFallback, frp = RedirectFallback with PreservePath
 //	              q<n> r<n> m<n>   buffer MaxRequestBodyBytes / MaxResponseBodyBytes / Mem{Request,Response}BodyBytes
 //	              t        buffer Retry("IsNetworkError() && Attempts() <= 2")
@@ -37,6 +37,7 @@
 package main
 
 import (
+	"errors"
 	"context"
 	"fmt"
 	"hash/adler32"
@@ -72,6 +73,7 @@ var flushWait = time.Second
 type layerSpec struct {
 	kind     string
 	sticky   bool
+	sinkFails bool // trace: the io.Writer the records go to returns an error on every Write
 	fb       string // "", "r", "<code>"
 	q, r, m  int64
 	periodMs int64
@@ -331,6 +333,8 @@ func parseStack(v string) ([]layerSpec, error) {
 				l.retry = true
 			case o == "v":
 				l.verbose = true
+			case o == "wf":
+				l.sinkFails = true
 			case strings.HasPrefix(o, "f"):
 				l.fb = o[1:]
 				hx.Atoi(l.fb)
@@ -386,10 +390,14 @@ func build(specs []layerSpec, intervene int, inner http.Handler) (http.Handler, 
 				h, err = stream.New(next)
 			}
 		case "trace":
+			var sink io.Writer = io.Discard
+			if l.sinkFails {
+				sink = failingWriter{}
+			}
 			if l.verbose {
-				h, err = trace.New(next, io.Discard, trace.Logger(lg), trace.RequestHeaders("X-Req-Id"), trace.ResponseHeaders("Content-Type"))
+				h, err = trace.New(next, sink, trace.Logger(lg), trace.RequestHeaders("X-Req-Id"), trace.ResponseHeaders("Content-Type"))
 			} else {
-				h, err = trace.New(next, io.Discard)
+				h, err = trace.New(next, sink)
 			}
 		case "connlimit":
 			max := int64(1)
@@ -453,7 +461,7 @@ func build(specs []layerSpec, intervene int, inner http.Handler) (http.Handler, 
 				opts = append(opts, roundrobin.Verbose(true), roundrobin.Logger(lg))
 			}
 			if l.sticky {
-				opts = append(opts, roundrobin.EnableStickySession(roundrobin.NewStickySession("sk"+strconv.Itoa(i))))
+				opts = append(opts, roundrobin.EnableStickySession(roundrobin.NewStickySession(stickyName(i))))
 			}
 			var rr *roundrobin.RoundRobin
 			rr, err = roundrobin.New(next, opts...)
@@ -472,7 +480,7 @@ func build(specs []layerSpec, intervene int, inner http.Handler) (http.Handler, 
 				opts = append(opts, roundrobin.RebalancerDebug(true), roundrobin.RebalancerLogger(lg))
 			}
 			if l.sticky {
-				opts = append(opts, roundrobin.RebalancerStickySession(roundrobin.NewStickySession("sk"+strconv.Itoa(i))))
+				opts = append(opts, roundrobin.RebalancerStickySession(roundrobin.NewStickySession(stickyName(i))))
 			}
 			var rb *roundrobin.Rebalancer
 			rb, err = roundrobin.NewRebalancer(rr, opts...)
@@ -765,6 +773,20 @@ func (s *scen) Close() {
 	s.client.CloseIdleConnections()
 	s.srv.CloseClientConnections()
 	s.srv.Close()
+}
+
+// failingWriter: a trace sink that is gone (closed file, broken pipe, full disk)
+type failingWriter struct{}
+
+func (failingWriter) Write([]byte) (int, error) { return 0, errors.New("sink gone") }
+
+// stickyName: affinity cookie of the balancer at stack position i.  Inner tiers get names that are proper prefixes of the outer
+// tiers' names (sk000000000, sk00000000, …): a tier that touches cookies by name prefix shows at once.
+func stickyName(i int) string {
+	if i > 9 {
+		i = 9
+	}
+	return "sk" + strings.Repeat("0", 9-i)
 }
 
 func newScenario(cfg []string) (hx.Handler, string) {
